@@ -208,18 +208,39 @@ func (x *Exec) heap(st *State, name, sort string) string {
 			x.eng.heapSorts[name] = sort
 			x.declare(name+"!0", sort)
 			nv := fmt.Sprintf("%s!h%s", name, sanitize(v[1:]))
-			x.declare(nv, sort)
+			if !x.declared[nv] {
+				x.declare(nv, sort)
+				x.counterMono(name, sort, nv, name+"!0")
+			}
 			st.heap[name] = nv
 			return nv
 		}
 		return v
+	}
+	if k := strings.Index(name, "$arg"); k > 0 && strings.HasPrefix(name, "G$calls$") {
+		if mk, ok := st.heap[name[:k]+"$arg*"]; ok && strings.HasPrefix(mk, "?") {
+			// the call log of this function was havoced (by a callee's frame, a loop or a callback) before this
+			// record was first referenced
+			x.eng.heapSorts[name] = sort
+			x.declare(name+"!0", sort)
+			nv := fmt.Sprintf("%s!h%s", name, sanitize(mk[1:]))
+			if !x.declared[nv] {
+				x.declare(nv, sort)
+				x.counterMono(name, sort, nv, name+"!0")
+			}
+			st.heap[name] = nv
+			return nv
+		}
 	}
 	if all, ok := st.heap["*"]; ok && !strings.HasPrefix(name, "IT$") && !strings.HasPrefix(name, "A$") && !(strings.HasPrefix(all, "?allng") && isGhostHeap(name, x.eng)) {
 		// everything was havoced earlier on this path before this heap was first referenced
 		x.eng.heapSorts[name] = sort
 		x.declare(name+"!0", sort)
 		nv := fmt.Sprintf("%s!h%s", name, sanitize(all[1:]))
-		x.declare(nv, sort)
+		if !x.declared[nv] {
+			x.declare(nv, sort)
+			x.counterMono(name, sort, nv, name+"!0")
+		}
 		st.heap[name] = nv
 		return nv
 	}
@@ -279,11 +300,30 @@ func (x *Exec) havocHeap(st *State, name string) {
 		return // never referenced: nothing known about it anyway
 	}
 	// make sure the initial version exists so old() refers to something stable
-	x.heap(st, name, sort)
+	prev := x.heap(st, name, sort)
 	x.n++
 	v := fmt.Sprintf("%s!%d", name, x.n)
 	x.declare(v, sort)
 	st.heap[name] = v
+	x.counterMono(name, sort, v, prev)
+}
+
+// counterMono: ghost call counters only ever grow, whatever havoced them (a callee's frame, a loop, a callback)
+func (x *Exec) counterMono(name, sort, nv, prev string) {
+	if name == "G$sent" && sort == "(Array Int Int)" {
+		// the number of values sent on a channel only grows
+		x.emit(fmt.Sprintf("(assert (forall ((r$c Int)) (! (>= (select %s r$c) (select %s r$c)) :pattern ((select %s r$c)))))", nv, prev, nv))
+		return
+	}
+	if !strings.HasPrefix(name, "G$calls$") {
+		return
+	}
+	switch {
+	case strings.HasSuffix(name, "$argtotal") && sort == "Int":
+		x.emit(fmt.Sprintf("(assert (>= %s %s))", nv, prev))
+	case !strings.Contains(name, "$arg") && sort == "(Array Int Int)":
+		x.emit(fmt.Sprintf("(assert (forall ((r$c Int)) (! (>= (select %s r$c) (select %s r$c)) :pattern ((select %s r$c)))))", nv, prev, nv))
+	}
 }
 
 func arrSort(elem string) string  { return "(Array Int " + elem + ")" }
@@ -534,6 +574,21 @@ func (x *Exec) store(st *State, loc *Loc, t types.Type, v Val) {
 	case KStruct:
 		x.storeStruct(st, x.structAddr(loc), t, v)
 	default:
+		if at, ok := t.Underlying().(*types.Array); ok {
+			// an array value stored as part of a struct: the element heap of its element type becomes unknown
+			// (sound, coarse; the arrays in reach are padding fields of syscall structures)
+			x.warn("store of an array value inside a struct (%s): element heap havoc", t)
+			et := at.Elem()
+			if kindOf(et) == KStruct || kindOf(et) == KArray {
+				x.applyMods(st, []modLoc{{heap: "*nonghost", whole: true}})
+				return
+			}
+			for _, c := range x.comps(et) {
+				x.heap(st, "E$"+typeKey(et)+c.suffix, arr2Sort(c.sort))
+				x.havocHeapForce(st, "E$"+typeKey(et)+c.suffix)
+			}
+			return
+		}
 		x.fatal("store of unsupported type %s", t)
 	}
 }
@@ -1412,6 +1467,19 @@ func (x *Exec) typeTag(t types.Type) string {
 	return name
 }
 
+// havocRow makes the elements of backing array arr unknown
+func (x *Exec) havocRow(st *State, et types.Type, arr string) {
+	if kindOf(et) == KStruct || kindOf(et) == KArray {
+		x.applyMods(st, []modLoc{{heap: "*nonghost", whole: true}})
+		return
+	}
+	for _, c := range x.comps(et) {
+		name := "E$" + typeKey(et) + c.suffix
+		h := x.heap(st, name, arr2Sort(c.sort))
+		x.setHeap(st, name, arr2Sort(c.sort), sx("store", h, arr, x.fresh("hrow", fmt.Sprintf("(Array Int %s)", c.sort))))
+	}
+}
+
 func (x *Exec) zeroRow(st *State, et types.Type, arr string) {
 	if kindOf(et) == KStruct || kindOf(et) == KArray {
 		return // contents unconstrained (sound, imprecise)
@@ -1525,6 +1593,12 @@ func (x *Exec) storeInstr(fr *Frame, st *State, reach string, i *ssa.Store) {
 	// a conditional store is not needed: the block's state is only used under its reach condition
 	if kindOf(et) == KStruct {
 		x.storeStruct(st, p.T, et, v)
+		return
+	}
+	if at, ok := et.Underlying().(*types.Array); ok {
+		// store of a whole array value: its elements (row p of the element heap) become unknown (sound, imprecise)
+		x.havocRow(st, at.Elem(), p.T)
+		x.warn("store of an array value (%s): elements havoc", et)
 		return
 	}
 	loc := p.Loc
@@ -1803,6 +1877,14 @@ func (x *Exec) convert(fr *Frame, st *State, reach string, i *ssa.Convert) Val {
 	case fk == KPtr && tk == KPtr:
 		// unsafe.Pointer conversions: keep the integer, drop the location
 		if sc, ok := v.(Sc); ok {
+			// unsafe.Pointer -> *T for a scalar T: the cell lives in raw memory (see rawMem)
+			if fb, isb := from.Underlying().(*types.Basic); isb && fb.Kind() == types.UnsafePointer {
+				if et := derefType(to); et != nil {
+					if k := kindOf(et); k == KInt || k == KBool || k == KPtr {
+						return Sc{T: sc.T, S: "Int", Loc: &Loc{Kind: LElem, Base: "E$" + typeKey(et), Arr: x.rawMem(), Idx: x.define("rawix", "Int", x.rawIndex(sc.T, et))}}
+					}
+				}
+			}
 			return Sc{T: sc.T, S: "Int"}
 		}
 	case fk == KInt && tk == KReal:
@@ -1816,6 +1898,11 @@ func (x *Exec) convert(fr *Frame, st *State, reach string, i *ssa.Convert) Val {
 		return I(n)
 	case fk == KPtr && tk == KInt, fk == KInt && tk == KPtr:
 		if sc, ok := v.(Sc); ok {
+			if fk == KPtr {
+				// A-unsafe-addr: a pointer turned into a number fits in 62 bits (amd64 user addresses are below 2^47), so
+				// that adding a structure size to it neither wraps nor changes sign unnoticed (see rawIndex)
+				x.assume(reach, sx("and", sx("<", "(- 4611686018427387904)", sc.T), sx("<", sc.T, "4611686018427387904")))
+			}
 			return Sc{T: sc.T, S: "Int"}
 		}
 	}
